@@ -393,7 +393,10 @@ func RunPath(w *World, h *Harness, prefix []int, procs []*smt.Proc, concrete []u
 			call(i, nil, token.NoPos, h.Fn, nil)
 		}
 	}()
-	if wantSample || m.isConcrete {
+	// paths with a failed obligation are replayed natively as counterexamples,
+	// not as differential samples (after a failed assertion the native harness
+	// continues whereas the executor may stop)
+	if (wantSample && len(m.violations) == 0) || m.isConcrete {
 		var model smt.Model
 		if !m.isConcrete && pr.End != "engine" {
 			model = m.currentModel()
